@@ -52,14 +52,14 @@ func init() {
 // that category's name, the match (operand for the default) as value and the
 // operand as input; a timeout resume leaves by the timeout category; the
 // step's exit, the returned exit and the logged segment agree.
-// cover: first-case, later-case, default, no-category, timeout, result-saved, test-error, localized-args, mismatched-args
+// cover: first-case, later-case, default, no-category, timeout, result-saved, test-error, localized-args, mismatched-args, evaluated-args
 func VerifC07_Switch() {
 	ncases := 1 + zzverif.Choice("ncases", 3)
 	ncats := 3
 	hasDefault := zzverif.Choice("has-default", 2) == 1
 	hasResult := zzverif.Choice("has-result-name", 2) == 1
 	waitKind := zzverif.Choice("wait", 3) // 0 none, 1 msg wait, 2 msg wait with timeout
-	locKind := zzverif.Choice("localized-arguments", 3) // 0 none, 1 same length, 2 different length
+	locKind := zzverif.Choice("localized-arguments", 4) // 0 none, 1 same length, 2 different length, 3 same length and an expression
 
 	var cats []flows.Category
 	var exits []flows.Exit
@@ -102,6 +102,8 @@ func VerifC07_Switch() {
 		loc.SetItemTranslation("spa", "k0", "arguments", []string{"spa-arg0"})
 	case 2:
 		loc.SetItemTranslation("spa", "k0", "arguments", []string{"spa-arg0", "extra"})
+	case 3:
+		loc.SetItemTranslation("spa", "k0", "arguments", []string{"@(upper(contact.name) & 1 + 1)"})
 	}
 	n0 := definition.NewNode("f0n0", nil, router, exits)
 	n1 := definition.NewNode("f0n1", nil, nil, []flows.Exit{definition.NewExit("f0n1e", "")})
@@ -167,6 +169,9 @@ func VerifC07_Switch() {
 			case 1:
 				zzverif.Cover("localized-args")
 				zzverif.Assert(len(a) == 1 && a[0] == "spa-arg0", "case arguments were not localized")
+			case 3:
+				zzverif.Cover("evaluated-args")
+				zzverif.Assert(len(a) == 1 && a[0] == "BOB2", "localized case arguments were not evaluated")
 			default:
 				if locKind == 2 {
 					zzverif.Cover("mismatched-args")
